@@ -17,8 +17,9 @@ from __future__ import annotations
 
 import ast
 
-from ..cfg import ENTRY
-from ..loader import AnalysisError, dotted, norm, walk_no_nested
+from ..cfg import header_parts
+from ..flow import Defs, Scope, iterations, rejections
+from ..loader import FuncInfo, dotted, norm, walk_no_nested
 from ..report import Ctx
 from ..selftest import Mutant
 from . import kinds_driver
@@ -38,45 +39,65 @@ DECLINED = [
 KEYED = (f"{SA}._file.FileArray", f"{SA}._dict.DictArray")
 
 
-def check(ctx: Ctx) -> None:  # noqa: C901, PLR0915
-    P = ctx.prog
+def rule_rank_domain(ctx: Ctx) -> None:
     findings, stats = kinds_driver.analyse(ctx, (SA, "pipefunc.map._storage_array"))
     kinds_driver.emit(ctx, "1-rank-domain", [f for f in findings if f.fn.module.name.startswith(SA)], 60)
     ctx.note(f"kind analysis: {stats}")
 
-    # ------------------------------------------------------------ 2 normaliser
+
+def rule_normaliser(ctx: Ctx) -> None:  # noqa: C901
+    P = ctx.prog
     for cq in KEYED:
         cls = P.cls(cq)
         for mname in ("__getitem__", "dump"):
             fn = cls.methods[mname]
+            keyp = [p for p in fn.param_names() if p != "self"][0]
             cfg = ctx.cfg(fn)
-            norm_nodes = cfg.nodes(lambda s: isinstance(s, ast.Assign) and isinstance(s.value, ast.Call) and dotted(s.value.func).rsplit(".", 1)[-1] in ("normalize_key", "_normalize_key")
-                                   and s.value.args and norm(s.value.args[0]) == "key")
+            norm_nodes = cfg.nodes(lambda s, keyp=keyp: isinstance(s, (ast.Assign, ast.AnnAssign)) and isinstance(s.value, ast.Call) and dotted(s.value.func).rsplit(".", 1)[-1] in ("normalize_key", "_normalize_key")
+                                   and s.value.args and norm(s.value.args[0]) == keyp)
             if not norm_nodes:
-                ctx.add("2-normaliser", fn, fn.node, False, f"{cls.name}.{mname} does not normalise its key", key=f"{cls.name}.{mname}")
+                via_helper = any(c.args and any(norm(a_) == keyp for a_ in c.args) for f_, c in Scope(ctx, fn).calls("normalize_key", "_normalize_key") if f_ is not fn) or \
+                    any("normalize_key" in norm(f_.node) for f_ in Scope(ctx, fn).funcs[1:])
+                ctx.tri("2-normaliser", fn, fn.node, False, not via_helper, "", f"{cls.name}.{mname} never normalises its key: negative, out-of-range or wrong-rank keys behave differently from the other backends",
+                        "the key is normalised in a helper; ordering not decided", key=f"{cls.name}.{mname}")
                 continue
             n0 = norm_nodes[0]
             call = cfg.stmt[n0].value
             fd = next((k.value.value for k in call.keywords if k.arg == "for_dump" and isinstance(k.value, ast.Constant)), False)
             want = mname == "dump"
-            users = [n for n in cfg.nodes() if n != n0 and any(isinstance(x, ast.Name) and x.id == "key" and isinstance(x.ctx, ast.Load) for part in _parts(cfg.stmt[n]) for x in ast.walk(part))]
-            dominated = all(cfg.dominates(n0, u) for u in users)
-            ok = dominated and fd == want
-            ctx.add("2-normaliser", fn, cfg.stmt[n0], ok, f"normalised (for_dump={fd}) before any other use of the key ({len(users)} later use(s))" if ok else (
-                f"the key is used before/without normalisation in {cls.name}.{mname}: negative, out-of-range or wrong-rank keys behave differently from the other backends" if not dominated else
+            users = [n for n in cfg.nodes() if n not in norm_nodes and any(isinstance(x, ast.Name) and x.id == keyp and isinstance(x.ctx, ast.Load) for part in header_parts(cfg.stmt[n]) for x in ast.walk(part))]
+            raw = [u for u in users if not any(cfg.dominates(n_, u) for n_ in norm_nodes)]
+            ctx.add("2-normaliser", fn, cfg.stmt[raw[0]] if raw else cfg.stmt[n0], not raw and fd == want, f"normalised (for_dump={fd}) before any other use of the key ({len(users)} later use(s))" if not raw and fd == want else (
+                f"`{norm(cfg.stmt[raw[0]])[:60]}` uses the key before/without normalisation in {cls.name}.{mname}: negative, out-of-range or wrong-rank keys behave differently from the other backends" if raw else
                 f"{cls.name}.{mname} normalises with for_dump={fd}"), key=f"{cls.name}.{mname}")
     nk = P.func(f"{SA}._base.normalize_key")
-    raises = [r for r in ast.walk(nk.node) if isinstance(r, ast.Raise)]
-    ok = len(raises) >= 2 and all(r.exc is not None and norm(r.exc).startswith("IndexError(") for r in raises)
-    ctx.add("2-normaliser", nk, raises[0] if raises else nk.node, ok, "wrong rank and out-of-range raise IndexError" if ok else "normalize_key does not raise IndexError for both wrong rank and out-of-range", key="indexerror")
-    src = norm(nk.node)
-    ok = "if len(key) != expected_rank" in src and "expected_rank = sum(shape_mask) if for_dump else len(shape_mask)" in src
-    ctx.add("2-normaliser", nk, nk.node, ok, "rank: external axes when dumping, all axes when reading" if ok else "the expected rank of a key changed", key="rank")
-    ok = "normalized_k = k if k >= 0 else k + axis_size" in src and "if not 0 <= normalized_k < axis_size" in src
-    ctx.add("2-normaliser", nk, nk.node, ok, "negative components wrap once, then 0 <= k < axis size" if ok else "negative-index / bounds handling of normalize_key changed", key="bounds")
-    ok = "if not isinstance(key, tuple)" in src and "key = (key,)" in src
-    ctx.add("2-normaliser", nk, nk.node, ok, "a scalar key is a 1-tuple" if ok else "scalar keys are no longer wrapped", key="scalar-key")
+    rej = []
+    for f_ in Scope(ctx, nk).funcs:
+        rej += [r for r in rejections(ctx.cfg(f_), f_.node, Defs(f_)) if not r["dead"]]
+    kinds_ = [norm(r["node"].exc).split("(")[0] if r["node"].exc is not None else "" for r in rej]
+    other = [k for k in kinds_ if k and k[0].isupper() and k != "IndexError"]
+    ctx.tri("2-normaliser", nk, rej[0]["node"] if rej else nk.node, len(rej) >= 2 and all(k == "IndexError" for k in kinds_), bool(other) or not rej,
+            "wrong rank and out-of-range raise IndexError", f"normalize_key raises {other or 'nothing'}: callers (and the sibling backends) rely on IndexError for bad keys", f"raised {kinds_}", key="indexerror")
+    lower = upper = False
+    for r in rej:
+        for t, truth in r["tests"]:
+            for c in [c for c in ast.walk(t) if isinstance(c, ast.Compare)]:
+                operands = [c.left, *c.comparators]
+                for (l_, op, r_) in zip(operands, c.ops, operands[1:]):
+                    zl, zr = (isinstance(l_, ast.Constant) and l_.value == 0), (isinstance(r_, ast.Constant) and r_.value == 0)
+                    if isinstance(op, (ast.Lt, ast.LtE, ast.Gt, ast.GtE)):
+                        if zl or zr:
+                            lower = True
+                        elif not isinstance(l_, ast.Call) and not isinstance(r_, ast.Call):
+                            upper = True
+    rank = any("len(" in c_ for r in rej for c_ in r["conds"])
+    ctx.tri("2-normaliser", nk, nk.node, lower and upper, lower and not upper, "each component is checked against 0 and against the axis size",
+            "normalize_key checks the lower bound only: an index beyond the axis is accepted (a file/dict entry outside the array is created or read)", "bounds checks not recognised", key="bounds")
+    ctx.tri("2-normaliser", nk, nk.node, rank, False, "the rank of the key is checked", "", "rank check not recognised", key="rank")
 
+
+def rule_interface(ctx: Ctx) -> None:  # noqa: C901
+    P = ctx.prog
     # ------------------------------------------------------------ 3 interface
     base = P.cls(f"{SA}._base.StorageBase")
     abstract = {n: m for n, m in base.methods.items() if any("abstractmethod" in d for d in m.decorators)}
@@ -117,62 +138,81 @@ def check(ctx: Ctx) -> None:  # noqa: C901, PLR0915
     dup = {k: v for k, v in ids.items() if len(v) > 1}
     ctx.add("3-interface", SA, "", not dup, f"{len(ids)} distinct storage ids" if not dup else f"storage ids registered twice: {dup}", key="distinct-ids")
     gs = P.func(f"{SA}._base.get_storage_class")
-    ok = "if storage not in storage_registry" in norm(gs.node) and any(isinstance(x, ast.Raise) for x in ast.walk(gs.node)) and "return storage_registry[storage]" in norm(gs.node)
-    ctx.add("3-interface", gs, gs.node, ok, "unknown ids raise, known ids return the registered class" if ok else "get_storage_class changed", key="lookup")
+    rj = [r for r in rejections(ctx.cfg(gs), gs.node) if not r["dead"]]
+    ctx.tri("3-interface", gs, gs.node, bool(rj) and "storage_registry" in norm(gs.node), not rj, "unknown ids raise, known ids return the registered class", "get_storage_class never raises for an unknown id", key="lookup")
 
-    # ------------------------------------------------------------ 4 row-major
+
+def _templates(fn: FuncInfo) -> set[str]:
+    return {norm(a) for a in ast.walk(fn.node) if (isinstance(a, ast.Attribute) and "template" in a.attr.lower()) or (isinstance(a, ast.Name) and "template" in a.id.lower())}
+
+
+def rule_row_major(ctx: Ctx) -> None:
+    P = ctx.prog
     fa = P.cls(f"{SA}._file.FileArray")
-    ml = fa.methods["mask_linear"]
-    ok = "for i in range(self.size)" in norm(ml.node) and "self.filename_template.format(i)" in norm(ml.node)
-    ctx.add("4-row-major", ml, ml.node, ok, "mask_linear enumerates range(size) with the same file-name template" if ok else "mask_linear no longer enumerates range(size) with the file-name template", key="mask-linear")
-    itf = fa.methods["_index_to_file"]
-    ok = norm(itf.node.body[-1]) == "return self.folder / self.filename_template.format(index)"
-    ctx.add("4-row-major", itf, itf.node, ok, "file name = template(linear index)" if ok else "_index_to_file changed", key="index-to-file")
-    ktf = fa.methods["_key_to_file"]
-    ok = "index = sum((k * s for k, s in zip(key, self.strides)))" in norm(ktf.node) and "return self._index_to_file(index)" in norm(ktf.node)
-    ctx.add("4-row-major", ktf, ktf.node, ok, "linear index = sum(key * strides)" if ok else "_key_to_file no longer computes sum(key_i * stride_i)", key="key-to-file")
-    da = P.cls(f"{SA}._dict.DictArray")
-    dml = da.methods["mask_linear"]
-    ok = "self.mask.data[:].flat" in norm(dml.node)
-    ctx.add("4-row-major", dml, dml.node, ok, "DictArray.mask_linear flattens the external mask in C order" if ok else "DictArray.mask_linear changed", key="dict-mask-linear")
-    fam = fa.methods["mask"]
-    ok = ".reshape(self.shape)" in norm(fam.node)
-    ctx.add("4-row-major", fam, fam.node, ok, "FileArray.mask reshapes the linear mask to the external shape" if ok else "FileArray.mask changed", key="file-mask")
+    ml, itf, ktf = fa.methods["mask_linear"], fa.methods["_index_to_file"], fa.methods["_key_to_file"]
+    t_ml, t_itf = _templates(ml), _templates(itf)
+    ctx.tri("4-row-major", ml, ml.node, bool(t_ml) and t_ml == t_itf, bool(t_ml) and bool(t_itf) and t_ml != t_itf, "mask_linear enumerates the files with the template that names them",
+            f"mask_linear looks for files named by {sorted(t_ml)} but elements are written under {sorted(t_itf)}: existing elements are reported missing", "file-name templates not recognised", key="mask-linear")
+    its = [it for it in iterations(ml.node) if "range(" in norm(it["iter"])]
+    whole = [it for it in its if norm(it["iter"]) in ("range(self.size)", "range(prod(self.shape))")]
+    ctx.tri("4-row-major", ml, ml.node, bool(whole), False, "one entry per linear index of the external shape", "", "enumeration of the linear indices not recognised", key="mask-linear-range")
+    d = Defs(ktf)
+    t = " ".join(norm(d.resolve(r.value)) for r in walk_no_nested(ktf.node) if isinstance(r, ast.Return) and r.value is not None)
+    ctx.tri("4-row-major", ktf, ktf.node, "self.strides" in t and "_index_to_file(" in t, False, "linear index = sum(key * strides), named by _index_to_file", "", "_key_to_file not recognised", key="key-to-file")
 
-    # ------------------------------------------------------------ 5 siblings
+
+def _classify_base(fn: FuncInfo, cfg, use: int, e: ast.AST, depth: int = 3) -> bool | None:
+    """True: `e` is an ndarray (np.asarray / masked array / np constructor); False: a raw stored element; None: unknown."""
+    t = norm(e)
+    if isinstance(e, ast.Call) and any(w in norm(e.func) for w in ("np.asarray", "np.array", "np.ma.", "_internal_mask", "np.empty", "np.zeros")):
+        return True
+    if isinstance(e, ast.Call) and (norm(e.func).endswith(("load", ".get")) or "read" in norm(e.func)):
+        return False
+    if isinstance(e, ast.Subscript) and "_dict" in norm(e.value):
+        return False
+    if isinstance(e, ast.Name) and depth:
+        defs_ = cfg.nodes(lambda s: isinstance(s, (ast.Assign, ast.AnnAssign)) and s.value is not None and any(isinstance(t_, ast.Name) and t_.id == e.id for t_ in (s.targets if isinstance(s, ast.Assign) else [s.target])))
+        reach = [n for n in defs_ if n != use and use in cfg.reachable_from(n, without=set(defs_) - {n, use})]  # reaching definitions
+        verdicts = [_classify_base(fn, cfg, n, cfg.stmt[n].value, depth - 1) for n in reach]
+        if verdicts and all(v is True for v in verdicts):
+            return True
+        if any(v is False for v in verdicts):
+            return False
+    _ = t
+    return None
+
+
+def rule_siblings(ctx: Ctx) -> None:
+    P = ctx.prog
+    n = 0
     for cq in KEYED:
         cls = P.cls(cq)
         for mname in ("__getitem__", "to_array"):
             fn = cls.methods[mname]
-            subs = [s for s in walk_no_nested(fn.node) if isinstance(s, ast.Subscript) and isinstance(s.ctx, ast.Load) and norm(s.slice) in ("internal_index", "internal_indices", "internal_key")]
-            for s in subs:
-                base_name = norm(s.value)
-                if "_internal_mask" in base_name:
+            cfg = ctx.cfg(fn)
+            subs = [s_ for s_ in walk_no_nested(fn.node) if isinstance(s_, ast.Subscript) and isinstance(s_.ctx, ast.Load) and isinstance(s_.slice, ast.Name) and "internal" in s_.slice.id]
+            for s_ in subs:
+                use = cfg.node_containing(s_)
+                if use is None:
                     continue
-                cfg = ctx.cfg(fn)
-                conv = cfg.nodes(lambda a, base_name=base_name: isinstance(a, ast.Assign) and norm(a.targets[0]) == base_name and "np.asarray(" in norm(a.value))
-                use = cfg.node_containing(s)
-                asarray = use is not None and any(cfg.dominates(c_, use) and c_ != use for c_ in conv)
-                ctx.add("5-siblings", fn, s, asarray, f"`{base_name}` is converted with np.asarray before internal indexing" if asarray else
-                        f"`{norm(s)}`: the stored element is indexed without np.asarray (a list element fails in this backend only)", key=f"asarray {cls.name}.{mname} {base_name}")
+                n += 1
+                v = _classify_base(fn, cfg, use, s_.value)
+                ctx.tri("5-siblings", fn, s_, v is True, v is False, f"`{norm(s_.value)[:30]}` is an ndarray when it is indexed with the internal index",
+                        f"`{norm(s_)}`: the stored element is indexed without np.asarray (a list element fails in this backend only)", f"origin of `{norm(s_.value)[:30]}` not traced", key=f"asarray {cls.name}.{mname} {norm(s_.value)[:30]}")
+    ctx.floor("5-siblings", n, 4)
+    fa, da = P.cls(f"{SA}._file.FileArray"), P.cls(f"{SA}._dict.DictArray")
     fg = fa.methods["__getitem__"]
-    ok = norm(fg.node).count("return np.ma.masked") == 1 and "sliced_data.append(np.ma.masked)" in norm(fg.node) and "if not file.is_file()" in norm(fg.node)
-    ctx.add("5-siblings", fg, fg.node, ok, "FileArray: a missing element reads as masked" if ok else "FileArray.__getitem__ no longer reports missing elements as masked", key="file-missing")
+    t = norm(fg.node)
+    ctx.tri("5-siblings", fg, fg.node, "np.ma.masked" in t and "is_file()" in t, "np.ma.masked" not in t, "FileArray: a missing element reads as masked", "FileArray.__getitem__ never yields np.ma.masked: a missing element raises instead of reading as masked", key="file-missing")
     dg = da.methods["__getitem__"]
-    ok = "return self._internal_mask()" in norm(dg.node) and norm(dg.node).count("external_key in self._dict") >= 3
-    ctx.add("5-siblings", dg, dg.node, ok, "DictArray: a missing element reads as masked" if ok else "DictArray.__getitem__ no longer reports missing elements as masked", key="dict-missing")
-    for cq, needle in ((f"{SA}._file.FileArray", "return self._index_to_file(index).is_file()"), (f"{SA}._dict.DictArray", "return np_index in self._dict")):
-        fn = P.find_method(cq, "has_index")
-        if fn is None or fn.cls is None or fn.cls.qualname != cq:
-            continue  # reported by the interface rule
-        ok = needle in norm(fn.node)
-        ctx.add("5-siblings", fn, fn.node, ok, "has_index tests the presence of exactly that element" if ok else "has_index changed", key=f"has-index {cq.rsplit('.', 1)[-1]}")
+    t = norm(dg.node)
+    ctx.tri("5-siblings", dg, dg.node, "_internal_mask()" in t and "in self._dict" in t, "_internal_mask()" not in t and "np.ma.masked" not in t, "DictArray: a missing element reads as masked",
+            "DictArray.__getitem__ never yields a masked value: a missing element raises KeyError instead of reading as masked", key="dict-missing")
 
 
-def _parts(st: ast.AST):
-    from ..cfg import header_parts
-
-    return header_parts(st)
+def check(ctx: Ctx) -> None:
+    for rule in (rule_rank_domain, rule_normaliser, rule_interface, rule_row_major, rule_siblings):
+        ctx.run(rule)
 
 
 B, F, D = "pipefunc/map/_storage_array/_base.py", "pipefunc/map/_storage_array/_file.py", "pipefunc/map/_storage_array/_dict.py"
